@@ -54,3 +54,49 @@ func init() {
 		}
 	})
 }
+
+// vest-edge: directed vesting lifecycles at the parameter edges validation allows.
+func init() {
+	run.Register("vest-edge", func(c *run.Ctx) {
+		nb := []int64{1, 2, 7, 30}[c.Job.Index%4]
+		w := chain.NewWorld(chain.Config{NUsers: 6, Probes: true, VestBlocks: nb, EdenClaimed: 1_000_000_000, EnableVestNow: true, VestNowFactor: []int64{1, 2, 1000000007, 90}[c.Job.Index%4], MaxVestings: 4})
+		c.Attach(w)
+		u := w.Users
+		vest := func(a *chain.Actor, x int64) *chain.TxRecord {
+			return w.Tx(a, &commitmenttypes.MsgVest{Creator: a.S(), Amount: math.NewInt(x), Denom: "ueden"})
+		}
+		claim := func(a *chain.Actor) *chain.TxRecord { return w.Tx(a, &commitmenttypes.MsgClaimVesting{Sender: a.S()}) }
+		cancel := func(a *chain.Actor, x int64) *chain.TxRecord {
+			return w.Tx(a, &commitmenttypes.MsgCancelVest{Creator: a.S(), Amount: math.NewInt(x), Denom: "ueden"})
+		}
+		now := func(a *chain.Actor, x int64) *chain.TxRecord {
+			return w.Tx(a, &commitmenttypes.MsgVestNow{Creator: a.S(), Amount: math.NewInt(x), Denom: "ueden"})
+		}
+		// up to the maximum number of concurrent vestings, one more must fail
+		for i := 0; i < 5; i++ {
+			w.Step(5, vest(u[0], int64(1000+i)), vest(u[1], 1), vest(u[2], 999_999))
+		}
+		w.Step(5, claim(u[0]), claim(u[1]), claim(u[2]), now(u[3], 1), now(u[4], 999_999_999))
+		w.Step(5, cancel(u[0], 1), cancel(u[2], 500_000), claim(u[1]))
+		w.Step(5, claim(u[0]), claim(u[2]))
+		for i := int64(0); i < nb+1; i++ {
+			w.Step(5, claim(u[int(i)%3]))
+		}
+		// governance: schedule length 0 (accepted by validation), then vest and claim
+		if w.GovExec("numblocks 0", &commitmenttypes.MsgUpdateVestingInfo{Authority: w.Gov, BaseDenom: "ueden", VestingDenom: "uelys", NumBlocks: 0, VestNowFactor: 3, NumMaxVestings: 6}) {
+			c.Ev("num_blocks_0_accepted")
+			w.Step(5, vest(u[0], 5000), vest(u[5], 77))
+			w.Step(5, claim(u[0]), claim(u[5]))
+			w.Step(5, cancel(u[0], 100))
+			w.Step(5, claim(u[0]))
+		}
+		if w.GovExec("numblocks 3", &commitmenttypes.MsgUpdateVestingInfo{Authority: w.Gov, BaseDenom: "ueden", VestingDenom: "uelys", NumBlocks: 3, VestNowFactor: 3, NumMaxVestings: 6}) {
+			w.Step(5, vest(u[0], 1000), vest(u[5], 10))
+			w.Step(5, claim(u[0]), cancel(u[5], 9))
+			w.Step(5, cancel(u[0], 600), claim(u[5]))
+			for i := 0; i < 4; i++ {
+				w.Step(5, claim(u[0]), claim(u[5]))
+			}
+		}
+	})
+}
